@@ -6,6 +6,7 @@ use serde::{de::DeserializeOwned, Serialize};
 use std::collections::BTreeSet;
 use std::sync::Arc;
 
+pub mod conc;
 pub mod diff;
 pub mod seq_inv;
 pub mod subjects;
@@ -70,5 +71,6 @@ pub fn all() -> Vec<Property> {
   v.extend(seq_inv::properties());
   v.extend(diff::properties());
   v.extend(subjects::properties());
+  v.extend(conc::properties());
   v
 }
